@@ -736,6 +736,13 @@ structure GConfig where
   pool_events : List String := []     -- event class names, sorted, without duplicates
   result_handler : String := ""
   socket : String := ""               -- FastCGI socket url
+  socket_backlog : Option Int := none -- FastCGI socket_backlog= (none when not given)
+  socket_mode : Option Int := none    -- unix socket: socket_mode= or 0o700; none for a tcp socket
+  /-- unix socket without socket_owner= (socket_owner is outside the modelled subset): options.py derives the owner from
+      the uid of `user=` -- None when that uid is os.getuid(), else (uid, gid_for_uid uid).  Two such owners are equal
+      exactly when the two uids are equal or both map to None, and in the second case the uids are equal as well, so the
+      uid stands for the owner wherever owners are only compared (SocketConfig.__eq__). -/
+  socket_owner : Option Int := none
 deriving DecidableEq, Repr
 
 def gLt (a b : GConfig) : Bool := cfgLt a.priority a.name b.priority b.name
@@ -884,7 +891,7 @@ def fcgiGroup (cx : Ctx) (sec : Section) : Except String GConfig := do
   let E := hereExps cx
   let priority ← getField cx.penv "fcgi" sec "priority" [] E >>= asInt
   let user ← getField cx.penv "fcgi" sec "user" [] E >>= asOptStr
-  let _uid ← optBind user (nameToUid cx.users)
+  let uid ← optBind user (nameToUid cx.users)
   let backlogS ← getField cx.penv "fcgi" sec "socket_backlog" [] E >>= asOptStr
   let backlog ← optBind backlogS (fun s => integer (.str s))
   match backlog with
@@ -908,7 +915,10 @@ def fcgiGroup (cx : Ctx) (sec : Section) : Except String GConfig := do
     else if strStartsWith "tcp://" sock then tcpSocket (sock.toList.drop 6)
     else throw "socket:bad socket format"
   let procs ← processesFromSection cx .fcgi sec suffix name
-  pure { kind := .fcgi, name, priority, procs, socket := url }
+  let isUnix := strStartsWith "unix://" sock
+  pure { kind := .fcgi, name, priority, procs, socket := url, socket_backlog := backlog,
+         socket_mode := if isUnix then some (mode.getD 448) else none,
+         socket_owner := if isUnix then uid else none }
 
 def fcgiGroups (cx : Ctx) (exclude : List String) : List Section → Except String (List GConfig)
   | [] => .ok []
